@@ -308,15 +308,19 @@ def run_case(run, tap, stream, index, rng):
                 lon[int(rng.integers(0, 3))] = float(rng.choice([-180 - rng.uniform(1e-6, 50), 360 + rng.uniform(1e-6, 50)]))
             else:
                 lat[int(rng.integers(0, 3))] = float(rng.choice([-90 - rng.uniform(1e-6, 50), 90 + rng.uniform(1e-6, 50)]))
-            try:
-                if kind not in (5, 6) and rng.random() < 0.5:
-                    vd.longitude_continuity(None, region)
-                else:
-                    vd.longitude_continuity([lon, lat], region)
-            except ValueError:
-                pass
-            except Exception:  # noqa: BLE001 - the monitor records the type
-                pass
+            # every invalid call is made twice, with a valid call in between and in other argument forms: a refusal must not
+            # depend on what was asked before (the monitor judges each call on its own)
+            forms = [lambda: vd.longitude_continuity(None, region), lambda: vd.longitude_continuity([lon, lat], region),
+                     lambda: vd.longitude_continuity((lon, lat), tuple(region)), lambda: vd.longitude_continuity([lon, lat], np.array(region))]
+            if kind in (5, 6):
+                forms = forms[1:]
+            first = forms[int(rng.integers(0, len(forms)))]
+            for call in (first, lambda: vd.longitude_continuity([good_lon, good_lat], [10.0, 50.0, -20.0, 20.0]), first, forms[int(rng.integers(0, len(forms)))]):
+                try:
+                    call()
+                except Exception:  # noqa: BLE001 - the monitor records the outcome and its type
+                    pass
+            run.count("class:invalid_repeated")
             run.mark_nontrivial("invalid", kind, region, lon, lat)
     elif stream == "forms":
         for _ in range(4):
